@@ -58,10 +58,12 @@ Print Assumptions C01_unclearing_free_refuted.
 (** ---- appended by the Eng builder: the modelled session core (coq/Eng) ----
     [Eng.Api.step] reports [ObsCrash e] from the first modelled call on that
     reaches an undefined or throwing C++ operation ([Eng.Ctx.err]).  The full
-    totality statement is [TotalProofs.core_total_full] (NOT proved: the
-    unreachability of std::string::substr with pos > size and of the fuel bound
-    |input| + 1 of CalculateSegmentation for arbitrary histories).  Proved: *)
-From RimeV Require Eng.Api Eng.Ctx Eng.Engine Eng.Oracle Eng.Spec Eng.CommitProofs Eng.TotalProofs.
+    totality theorem is [C01_core_total] at the end of this file (proof:
+    Eng/TotalFull.v): no crash of any kind over all histories, for translators
+    whose candidates lie inside their segment; the statement without that
+    hypothesis ([TotalProofs.core_total_full]) is refuted
+    ([C01_core_total_needs_candidate_shape]).  The earlier partial theorems are kept: *)
+From RimeV Require Eng.Api Eng.Ctx Eng.Engine Eng.Oracle Eng.Spec Eng.CommitProofs Eng.TotalFull Eng.TotalProofs.
 
 (** for EVERY history of API operations with arbitrary arguments (keys with any
     code/mask, indices up to SIZE_MAX, carets beyond the end, options, …), any
@@ -101,3 +103,44 @@ Theorem C01_core_total_except_substr :
   forall ops, List.Forall RimeV.Eng.WfProofs.obs_only_substr (snd (RimeV.Eng.Api.run cfg translate ops)).
 Proof. exact RimeV.Eng.TotalProofs.core_total_except_substr. Qed.
 Print Assumptions C01_core_total_except_substr.
+
+(** FULL: for EVERY history of API operations with arbitrary arguments, any
+    configuration with page_size >= 1, either editor, given the source fact that
+    Context::DeleteCandidate looks the candidate up first, and any translator
+    whose candidate lists are shorter than 2^31 - page_size and whose candidates
+    end inside the segment they were made for and cover at least one byte of it
+    ([cands_fit]: si_start s < c_end c <= si_start s + |segment input|): NO
+    observation is a crash – no std::string::substr with pos > size, no null
+    candidate dereference, no invalid page range, and CalculateSegmentation
+    finishes within its |input| + 1 rounds.  (Invariant: open segments hold only
+    candidates that fit, closed ones a fitting selected candidate and a menu
+    bounded by the end Segment::Reopen restores, raw segments cover only bytes
+    the abc segmentor refuses, the last segment is open or empty; Compose
+    re-establishes it from the weaker form Reopen leaves behind, and swallows
+    the one raw segment with a stale length that OnSelect can cut short.) *)
+Theorem C01_core_total :
+  forall cfg translate, RimeV.Eng.TotalProofs.total_hyps cfg translate ->
+  RimeV.Eng.TotalFull.cands_fit translate ->
+  forall ops, List.forallb RimeV.Eng.CommitProofs.not_crash (snd (RimeV.Eng.Api.run cfg translate ops)) = true.
+Proof. exact RimeV.Eng.TotalProofs.core_total. Qed.
+Print Assumptions C01_core_total.
+
+(** non-vacuity: the synthetic schemas of the correspondence checks (both
+    editors, the oracle translator) meet every hypothesis *)
+Theorem C01_core_total_synth :
+  forall fluid dlog ops,
+    List.forallb RimeV.Eng.CommitProofs.not_crash
+      (snd (RimeV.Eng.Api.run (RimeV.Eng.Oracle.synth_cfg fluid dlog) RimeV.Eng.Oracle.oracle_translate ops)) = true.
+Proof. exact RimeV.Eng.TotalProofs.core_total_synth. Qed.
+Print Assumptions C01_core_total_synth.
+
+Theorem C01_oracle_translator_cands_fit : RimeV.Eng.TotalFull.cands_fit RimeV.Eng.Oracle.oracle_translate.
+Proof. exact RimeV.Eng.TotalProofs.oracle_cands_fit. Qed.
+Print Assumptions C01_oracle_translator_cands_fit.
+
+(** the candidate-shape hypothesis cannot be dropped: with a translator whose
+    candidate ends beyond the input, "a" + select_candidate(0) makes GetPreedit
+    call substr with pos > size (the statement without the hypothesis is false) *)
+Theorem C01_core_total_needs_candidate_shape : ~ RimeV.Eng.TotalProofs.core_total_full.
+Proof. exact RimeV.Eng.TotalProofs.core_total_full_refuted. Qed.
+Print Assumptions C01_core_total_needs_candidate_shape.
